@@ -138,7 +138,7 @@ func (ex *Exec) sliceOp(fr *Frame, st *State, x *ssa.Slice) (Val, string) {
 		if b.Nil {
 			return b, ""
 		}
-		return &SliceV{Obj: obj, Off: st.Arith(token.ADD, b.Off, lo, ex.pos(x)), Len: nl, Cap: nc}, ""
+		return &SliceV{Obj: obj, Path: b.Path, Off: st.Arith(token.ADD, b.Off, lo, ex.pos(x)), Len: nl, Cap: nc}, ""
 	case *PtrV: // *array
 		if b.Unk || b.Nil {
 			return &SliceV{Unk: true}, ""
@@ -151,10 +151,17 @@ func (ex *Exec) sliceOp(fr *Frame, st *State, x *ssa.Slice) (Val, string) {
 		if hi == nil {
 			hi = n
 		}
-		if len(b.Path) != 0 {
-			return &SliceV{Unk: true}, ""
+		for _, pe := range b.Path {
+			if pe.Index != nil { // array nested in an array element: not tracked
+				return &SliceV{Unk: true}, ""
+			}
 		}
-		return &SliceV{Obj: b.Obj, Off: lo, Len: st.Arith(token.SUB, hi, lo, ex.pos(x)), Cap: st.Arith(token.SUB, n, lo, ex.pos(x))}, ""
+		if len(b.Path) != 0 {
+			if _, ok := ex.arrOf(st, &SliceV{Obj: b.Obj, Path: b.Path}); !ok {
+				return &SliceV{Unk: true}, ""
+			}
+		}
+		return &SliceV{Obj: b.Obj, Path: append([]PathElem{}, b.Path...), Off: lo, Len: st.Arith(token.SUB, hi, lo, ex.pos(x)), Cap: st.Arith(token.SUB, n, lo, ex.pos(x))}, ""
 	case *StrV:
 		if b.Known && (lo == nil || isConstV(st, lo)) && (hi == nil || isConstV(st, hi)) {
 			l, h := int64(0), int64(len(b.S))
@@ -728,19 +735,19 @@ func (ex *Exec) copyOp(st *State, args []Val, x ssa.CallInstruction) Val {
 		n = s.Len
 	} else if !k {
 		// undecided: forget destination
-		if arr, ok := st.heap[d.Obj].(*ArrayV); ok {
-			st.heap[d.Obj] = &ArrayV{Elem: arr.Elem, Segs: []Seg{{Run: &Run{Src: ex.syms.Fresh("copy", 8, false).Name, Off: constTerm(0), Len: arrLen(arr)}}}}
+		if arr, ok := ex.arrOf(st, d); ok {
+			ex.setArrOf(st, d, &ArrayV{Elem: arr.Elem, Segs: []Seg{{Run: &Run{Src: ex.syms.Fresh("copy", 8, false).Name, Off: constTerm(0), Len: arrLen(arr)}}}})
 		}
 		r := st.freshInt("copy", 64, true)
 		st.refineSym(r.T.Syms[0], 0, 1<<40)
 		return r
 	}
-	src := &SliceV{Obj: s.Obj, Off: s.Off, Len: n, Cap: n}
+	src := &SliceV{Obj: s.Obj, Path: s.Path, Off: s.Off, Len: n, Cap: n}
 	segs, ok := ex.sliceSegs(st, src)
-	arr, ok2 := st.heap[d.Obj].(*ArrayV)
+	arr, ok2 := ex.arrOf(st, d)
 	if !ok || !ok2 || !ex.arrReplace(st, arr, st.TermOf(d.Off), segs, st.TermOf(n)) {
 		if ok2 {
-			st.heap[d.Obj] = &ArrayV{Elem: arr.Elem, Segs: []Seg{{Run: &Run{Src: ex.syms.Fresh("copy", 8, false).Name, Off: constTerm(0), Len: arrLen(arr)}}}}
+			ex.setArrOf(st, d, &ArrayV{Elem: arr.Elem, Segs: []Seg{{Run: &Run{Src: ex.syms.Fresh("copy", 8, false).Name, Off: constTerm(0), Len: arrLen(arr)}}}})
 		}
 	}
 	return n
